@@ -365,7 +365,7 @@ func (pc *parentCfg) spawn(k, from, only int) (*exec.Cmd, string, error) {
 	}
 	cmd.Stderr = ef
 	cmd.Stdout = ef
-	cmd.Env = append(os.Environ(), pc.env...)
+	cmd.Env = append(append(os.Environ(), pc.env...), "VCHECK_OUTDIR="+pc.outdir)
 	if err := cmd.Start(); err != nil {
 		return nil, "", err
 	}
@@ -496,6 +496,9 @@ func (pc *parentCfg) handleDeath(ps *procState, idx int64, how, diag string, m *
 		return
 	}
 	res, diag2 := pc.confirmAlone(ps.k, int(idx), m)
+	if in := headFile(filepath.Join(pc.outdir, fmt.Sprintf("input-%d.txt", idx)), 2500); in != "" {
+		diag2 = "last noted input of the case: " + in + "\n" + diag2
+	}
 	switch {
 	case res == "ok":
 		m.Inconclusive = append(m.Inconclusive, fmt.Sprintf("case %d: worker %s but the case ran clean alone (%s)", idx, how, firstLines(diag, 2)))
